@@ -37,6 +37,7 @@ type authState struct {
 	fired    bool
 	what     string
 	count    bool // only count the reads (probe run on the twin)
+	tables   []string // when set: reads are counted only on these tables (the node table of an append-only tree: read only by initCache)
 }
 
 var auth authState
@@ -99,6 +100,15 @@ func (a *authState) decide(file string, op int, a1, a2 string) int {
 		if strings.HasPrefix(a1, "verif_") || strings.HasPrefix(a1, "sqlite_") || a1 == "c" || (op == opTransation && a1 != "BEGIN") {
 			return sqliteOK // ("c" is the CTE inside the trigger injector's slow statement)
 		}
+		if a.tables != nil {
+			hit := false
+			for _, t := range a.tables {
+				hit = hit || (op == opRead && a1 == t)
+			}
+			if !hit {
+				return sqliteOK
+			}
+		}
 		if a.w <= 0 || a.seenW == a.w-1 { // w = 0: reads are counted over the whole operation
 			a.seenR++
 			if a.seenR == a.r {
@@ -114,7 +124,15 @@ func (a *authState) decide(file string, op int, a1, a2 string) int {
 func armAuth(path string, w, r int) {
 	auth.mu.Lock()
 	defer auth.mu.Unlock()
-	auth.path, auth.w, auth.r, auth.seenW, auth.seenR, auth.fired, auth.what, auth.count = path, w, r, 0, 0, false, "", false
+	auth.path, auth.w, auth.r, auth.seenW, auth.seenR, auth.fired, auth.what, auth.count, auth.tables = path, w, r, 0, 0, false, "", false, nil
+}
+
+// armAuthTables: deny the r-th column read of the given tables (whole operation).
+func armAuthTables(path string, tables []string, r int) {
+	armAuth(path, 0, r)
+	auth.mu.Lock()
+	auth.tables = tables
+	auth.mu.Unlock()
 }
 
 // probeReads counts the reads of the operation by running it on the twin (rebuilt from the surviving history before and after).
@@ -123,7 +141,7 @@ func probeReads(kd kindDriver, op Op) (int, error) {
 		return 0, err
 	}
 	auth.mu.Lock()
-	auth.path, auth.w, auth.r, auth.seenW, auth.seenR, auth.fired, auth.what, auth.count = kd.twinPath(), 0, 0, 0, 0, false, "", true
+	auth.path, auth.w, auth.r, auth.seenW, auth.seenR, auth.fired, auth.what, auth.count, auth.tables = kd.twinPath(), 0, 0, 0, 0, false, "", true, nil
 	auth.mu.Unlock()
 	_ = kd.twinProcess(op)
 	auth.mu.Lock()
